@@ -1,6 +1,8 @@
 """C12 — config resolution: right-biased merge; exact, escapable, terminating expansion."""
+import hashlib
 import json
 import os
+import shutil
 import vlib
 
 HERE = os.path.dirname(os.path.abspath(__file__))
@@ -33,11 +35,13 @@ vlib.known_findings = _known_findings
 
 class P(vlib.Prop):
     pid = "C12"
-    coq_dirs = ["Common", "C12"]
+    coq_dirs = ["Common", "C12"]   # + coq/Generated/C12Tables.v (written by translate below)
     coq_targets = ["C12/Properties.vo", "C12/Witness.vo", "C12/Harness.vo"]
     properties_module = "C12.Properties"
     properties_file = "C12/Properties.v"
-    instance_obligations = []
+    instance_obligations = ["scheme_first_class_is_code", "scheme_rest_class_is_code", "scheme_pattern_shape_is_code",
+                            "new_location_is_code", "find_uri_is_code", "replace_unescaped_is_code",
+                            "unescape_is_code", "max_rounds_is_code", "tables_are_populated"]
     harness_module = "C12.Harness"
     case_type = "wcase"
     shard = 50
@@ -65,6 +69,7 @@ class P(vlib.Prop):
             "providers that HAVE such entries, which must be refused with the '$' error; re-resolve: 90 scenarios in which ONE Resolver resolves 2-3 times while provider values and "
             "sources change in between and a provider fires its WatcherFunc (each Resolve a case; oracle: equal to a fresh "
             "Resolver on the current values); the merge family lists the same source URI again in a third of its cases; "
+            "scheme-shape: 70 references with generated schemes judged by the documented rule; "
             "1 guarded child-process probe of a "
             "doubling reference cycle (memory watchdog 300 MiB, RLIMIT_AS 2 GiB, 180 s deadline). thorough = 12x. Non-trivial = every case except single-source merges; distinct = "
             "distinct case terms (duplicates are dropped by the harness).")
@@ -74,6 +79,8 @@ class P(vlib.Prop):
         "confmap.go (sanitize, useExpandValue + mapstructure for string/int/[]string/map[string]string targets), "
         "provider.go (AsString, AsConf) and koanf maps.Merge — tied to the code by the correspondence run on every check",
         "Go harness harness/C12/resolve_test.go (generators, reference interpreter, merge oracle) + go test -overlay; Go toolchain",
+        "table dump harness/C12/dump_test.go (runs the current schemePattern, newLocation, findURI, replaceUnescaped, "
+        "escapeDollarSigns, expandValueRecursively on exhaustive small domains) -> coq/Generated/C12Tables.v; coq/C12/Tie.v proves the model equal to it",
         "modelled, not verified: YAML parsing of provider bytes (the harness records what NewRetrievedFromYAML produced), "
         "koanf flatten/unflatten for keys containing '::' (never generated), converters, float64->int truncation in mapstructure",
     ]
@@ -83,3 +90,40 @@ class P(vlib.Prop):
         "providers are pure functions of (scheme, opaque value) during one Resolve",
         "mapstructure decodes string/int/[]string/map[string]string fields as modelled in Model.v (decode_*_field); validated on every case",
     ]
+
+    def translate(self, ctx):
+        """Tables by RUNNING the current code (T1 cannot read regexps / string loops): harness/C12/dump_test.go is
+        injected into /repo/confmap by overlay and prints the graphs of schemePattern, newLocation, findURI,
+        replaceUnescaped, escapeDollarSigns on exhaustive small domains and the loop bound of
+        expandValueRecursively; coq/Generated/C12Tables.v is rewritten only when its content changed.
+        coq/C12/Tie.v proves the hand-written model equal to these tables."""
+        pkgdir = os.path.join(vlib.REPO, "confmap")
+        ov = {os.path.join(pkgdir, "zz_verif_c12_dump_test.go"): os.path.join(vlib.VERIF, "harness", "C12", "dump_test.go")}
+        xo = os.environ.get("VERIF_EXTRA_OVERLAY")   # builders' aid (BUILDING.md 5): dump from the edited tree
+        if xo and os.path.exists(xo):
+            ov.update(json.load(open(xo)).get("Replace", {}))
+        ovp = os.path.join(ctx.work, "overlay_dump.json")
+        json.dump({"Replace": ov}, open(ovp, "w"))
+        modfile = os.path.join(ctx.work, "gomod_dump.mod")
+        shutil.copyfile(os.path.join(pkgdir, "go.mod"), modfile)
+        if os.path.exists(os.path.join(pkgdir, "go.sum")):
+            shutil.copyfile(os.path.join(pkgdir, "go.sum"), modfile[:-4] + ".sum")
+        tmp = os.path.join(ctx.work, "C12Tables.v.new")
+        if os.path.exists(tmp):
+            os.remove(tmp)
+        rc, out = vlib.run(["go", "test", "-modfile=" + modfile, "-overlay=" + ovp, "-count=1", "-vet=off",
+                            "-run", "^TestVerifC12Dump$", "-timeout", "600s", "."],
+                           cwd=pkgdir, env=vlib.goenv({"VERIF_C12_GEN": tmp}), timeout=900)
+        if rc != 0 or not os.path.exists(tmp):
+            raise vlib.Broken("translator (C12 table dump) cannot run against the current tree", out[-3000:])
+        new = open(tmp).read()
+        dst = os.path.join(vlib.COQ, "Generated", "C12Tables.v")
+        if not os.path.exists(dst) or open(dst).read() != new:
+            open(dst, "w").write(new)
+        ctx.translator_manifests.append({
+            "file": "confmap/expand.go + resolver.go (schemePattern, uriRegexp/newLocation, findURI, replaceUnescaped, "
+                    "escapeDollarSigns, expandValueRecursively bound) — graphs dumped by running the code",
+            "lines": None, "sha256": hashlib.sha256(new.encode()).hexdigest(),
+            "defines": ["C12Tables.go_scheme_first", "C12Tables.go_scheme_rest", "C12Tables.go_scheme_small",
+                        "C12Tables.go_new_location", "C12Tables.go_find_uri", "C12Tables.go_replace",
+                        "C12Tables.go_unescape", "C12Tables.go_max_rounds"], "params": []})
